@@ -1,6 +1,7 @@
 (* Enclosed-light fraction inside the r_eff ellipse for the b_n approximation in use
    (b_n REGENERATED from rendering.py), at 2n integer. *)
-From Coq Require Import Reals Lia.
+From Coq Require Import Reals Lra Lia.
+From Coquelicot Require Import Coquelicot.
 From Interval Require Import Tactic.
 From PS Require Import Base.RBase Gen.Formulas Proofs.SymmetryProofs.
 Open Scope R_scope.
@@ -13,3 +14,200 @@ Proof.
   do 11 (destruct m as [|m]; [unfold enclosed_fraction, sersic_bn; cbn [horner INR]; split; interval|]).
   exfalso; lia.
 Qed.
+
+(* ---------------------------------------------------------------------------------------------
+   The closed form used above,  enclosed_fraction m b = 1 - exp(-b) sum_{k<m} b^k / k!,  IS the regularised lower
+   incomplete gamma function P(m, b) = (1/(m-1)!) int_0^b t^(m-1) exp(-t) dt, and the light of the GENERATED 1-D
+   Sersic profile (sersic1d, from rendering.py) inside radius r is flux x P(2n, b_n (r/re)^(1/n)) for 2n = m integer:
+   its growth rate is 2 pi r I(r).  At r = re the argument is b_n itself, so r_eff encloses P(2n, b_n) of the flux.
+   --------------------------------------------------------------------------------------------- *)
+
+Lemma rsum_shift f n : rsum f (S n) = f 0%nat + rsum (fun k => f (S k)) n.
+Proof.
+  induction n as [|n IH]; [cbn [rsum]; ring|].
+  cbn [rsum] in *. rewrite IH. ring.
+Qed.
+
+Lemma INR_fact_neq_0 k : INR (fact k) <> 0.
+Proof. apply not_0_INR. apply fact_neq_0. Qed.
+
+(* the nested form is the partial exponential series *)
+Lemma horner_closed m : forall j b, (0 < j)%nat ->
+  horner j m b = rsum (fun k => b ^ k * INR (fact (j - 1)) / INR (fact (j - 1 + k))) m.
+Proof.
+  induction m as [|m IH]; intros j b Hj; [reflexivity|].
+  cbn [horner]. rewrite (IH (S j) b) by lia. rewrite rsum_shift.
+  replace (j - 1 + 0)%nat with (j - 1)%nat by lia.
+  replace (b ^ 0 * INR (fact (j - 1)) / INR (fact (j - 1))) with 1 by (cbn [pow]; field; apply INR_fact_neq_0).
+  f_equal. rewrite <- rsum_scal. apply rsum_ext. intros k _.
+  replace (S j - 1)%nat with j by lia. replace (j - 1 + S k)%nat with (j + k)%nat by lia.
+  assert (Hf : INR (fact j) = INR j * INR (fact (j - 1))).
+  { destruct j as [|j']; [lia|]. replace (S j' - 1)%nat with j' by lia. rewrite fact_simpl, mult_INR. reflexivity. }
+  rewrite Hf. cbn [pow]. field. split; [apply INR_fact_neq_0|apply not_0_INR; lia].
+Qed.
+
+Definition psum (m : nat) (b : R) : R := rsum (fun k => b ^ k / INR (fact k)) m.
+
+Lemma horner_is_psum m b : horner 1 m b = psum m b.
+Proof.
+  rewrite horner_closed by lia. unfold psum. apply rsum_ext. intros k _.
+  cbn [Nat.sub fact INR Nat.add]. field. apply INR_fact_neq_0.
+Qed.
+
+Lemma psum_derive m b : is_derive (psum m) b (psum (m - 1) b).
+Proof.
+  induction m as [|m IH].
+  - unfold psum. cbn [rsum Nat.sub]. apply (is_derive_const 0 b).
+  - unfold psum in *. cbn [rsum].
+    destruct m as [|m'].
+    + cbn [rsum Nat.sub pow fact INR]. 
+      apply (is_derive_ext (fun _ => 0 + 1 / 1)); [intros; reflexivity|]. apply (is_derive_const (0 + 1 / 1) b).
+    + replace (S (S m') - 1)%nat with (S m') by lia. replace (S m' - 1)%nat with m' in IH by lia.
+      cbn [rsum]. apply (is_derive_plus (fun x => rsum (fun k => x ^ k / INR (fact k)) (S m')) (fun x => x ^ S m' / INR (fact (S m'))) b).
+      * exact IH.
+      * auto_derive; [exact I|].
+        change (match m' with O => 1 | S _ => INR m' + 1 end) with (INR (S m')).
+        rewrite S_INR, plus_INR, mult_INR.
+        assert (Hf : 0 < INR (fact m')) by (apply lt_0_INR, lt_O_fact).
+        pose proof (pos_INR m') as Hm.
+        field. split; nra.
+Qed.
+
+(* derivative of the closed form = the normalised gamma integrand *)
+Lemma enclosed_fraction_derive m b : (0 < m)%nat ->
+  is_derive (enclosed_fraction m) b (exp (- b) * b ^ (m - 1) / INR (fact (m - 1))).
+Proof.
+  intros Hm.
+  apply (is_derive_ext (fun x => 1 - exp (- x) * psum m x)).
+  { intros x. unfold enclosed_fraction. rewrite horner_is_psum. reflexivity. }
+  pose proof (psum_derive m b) as Hp.
+  evar_last.
+  - apply (is_derive_minus (fun _ => 1) (fun x => exp (- x) * psum m x) b).
+    + apply (is_derive_const 1 b).
+    + apply (is_derive_mult (fun x => exp (- x)) (psum m) b); [|exact Hp|intros; apply Rmult_comm].
+      apply (is_derive_comp exp (fun x => - x) b); [apply is_derive_exp|apply (is_derive_opp (fun x => x) b); apply (is_derive_id b)].
+  - destruct m as [|m']; [lia|]. replace (S m' - 1)%nat with m' by lia.
+    unfold psum. cbn [rsum]. unfold minus, plus, opp, mult, scal, one, zero. simpl.
+    unfold mult, one. simpl. field. apply INR_fact_neq_0.
+Qed.
+
+Lemma enclosed_fraction_0 m : (0 < m)%nat -> enclosed_fraction m 0 = 0.
+Proof.
+  intros Hm. destruct m as [|m']; [lia|]. unfold enclosed_fraction. cbn [horner].
+  rewrite Ropp_0, exp_0. unfold Rdiv. rewrite Rmult_0_l. ring.
+Qed.
+
+(* P(m, b) = (1 / (m-1)!) * integral_0^b t^(m-1) exp(-t) dt *)
+Theorem enclosed_fraction_is_incomplete_gamma m b : (0 < m)%nat ->
+  is_RInt (fun t => exp (- t) * t ^ (m - 1) / INR (fact (m - 1))) 0 b (enclosed_fraction m b).
+Proof.
+  intros Hm.
+  replace (enclosed_fraction m b) with (minus (enclosed_fraction m b) (enclosed_fraction m 0)).
+  2:{ rewrite (enclosed_fraction_0 m Hm). unfold minus, plus, opp. simpl. ring. }
+  apply (is_RInt_derive (enclosed_fraction m) (fun t => exp (- t) * t ^ (m - 1) / INR (fact (m - 1)))).
+  - intros x _. apply enclosed_fraction_derive. exact Hm.
+  - intros x _. apply (ex_derive_continuous (fun t => exp (- t) * t ^ (m - 1) / INR (fact (m - 1)))).
+    auto_derive. exact I.
+Qed.
+
+(* ---------- the radial light growth of the generated 1-D Sersic profile ---------- *)
+
+Lemma exp_pow_nat y m : exp y ^ m = exp (INR m * y).
+Proof.
+  induction m as [|m IH]; [cbn [pow INR]; rewrite Rmult_0_l, exp_0; reflexivity|].
+  cbn [pow]. rewrite IH, S_INR, <- exp_plus. f_equal. ring.
+Qed.
+
+Lemma rpow_nat x m : 0 < x -> rpow x (INR m) = x ^ m.
+Proof. intros Hx. rewrite rpow_pos by assumption. rewrite <- exp_pow_nat, exp_ln by assumption. reflexivity. Qed.
+
+Section Radial.
+  Variable lg : R -> R.
+  Variables (flux re : R) (m : nat).
+  Hypothesis Hre : 0 < re.
+  Hypothesis Hm : (0 < m)%nat.
+  Let n := INR m / 2.
+  Let b := sersic_bn n.
+  (* lg is the log-gamma function at 2n = m *)
+  Hypothesis Hlg : exp (lg (2 * n)) = INR (fact (m - 1)).
+
+  Lemma n_pos : 0 < n.
+  Proof. unfold n. assert (0 < INR m) by (apply lt_0_INR; exact Hm). lra. Qed.
+
+  Lemma b_pos : 0 < b.
+  Proof.
+    unfold b, sersic_bn, n. assert (1 <= INR m) by (apply (le_INR 1); lia). lra.
+  Qed.
+
+  Lemma two_n : 2 * n = INR m.
+  Proof. unfold n. field. Qed.
+
+  (* light inside radius r of the circular profile: flux x P(2n, b (r/re)^(1/n)); its growth rate is 2 pi r I(r) *)
+  Theorem sersic1d_light_growth r : 0 < r ->
+    is_derive (fun x => flux * enclosed_fraction m (b * rpow (x / re) (1 / n))) r (2 * PI * r * sersic1d lg r flux re n).
+  Proof.
+    intros Hr. pose proof n_pos as Hn. pose proof b_pos as Hb. pose proof two_n as H2n.
+    assert (Hx : 0 < r / re) by (apply Rdiv_lt_0_compat; assumption).
+    (* near r the power is exp((1/n) ln(x/re)) *)
+    apply (is_derive_ext_loc (fun x => flux * enclosed_fraction m (b * exp (1 / n * ln (x / re))))).
+    { apply (locally_open (fun x => 0 < x) _ (open_gt 0)); [|exact Hr].
+      intros x Hxp. rewrite rpow_pos; [reflexivity|apply Rdiv_lt_0_compat; assumption]. }
+    set (t := fun x => b * exp (1 / n * ln (x / re))).
+    assert (Dt : is_derive t r (b * exp (1 / n * ln (r / re)) * (1 / n) / r)).
+    { unfold t. auto_derive; [exact Hx|]. unfold Rdiv. field. repeat split; lra. }
+    pose proof (enclosed_fraction_derive m (t r) Hm) as DP.
+    evar_last.
+    - apply (is_derive_scal (fun x => enclosed_fraction m (t x)) r flux).
+      apply (is_derive_comp (enclosed_fraction m) t r); [exact DP|exact Dt].
+    - (* algebra *)
+      unfold scal, mult. simpl. unfold mult. simpl.
+      unfold sersic1d. change (2499 / 1250 * n - 3271 / 10000) with b. rewrite H2n.
+      rewrite (rpow_nat b m Hb), (rpow_pos (r / re) (1 / n) Hx).
+      replace (exp (b + lg (INR m))) with (exp b * INR (fact (m - 1))) by (rewrite exp_plus, <- H2n, Hlg; reflexivity).
+      unfold t.
+      set (u := exp (1 / n * ln (r / re))).
+      assert (Hu : u ^ m = (r / re) ^ 2).
+      { unfold u. rewrite exp_pow_nat. replace (INR m * (1 / n * ln (r / re))) with (INR 2 * ln (r / re)).
+        - rewrite <- exp_pow_nat, exp_ln by assumption. reflexivity.
+        - simpl (INR 2). unfold n. field. apply not_0_INR. lia. }
+      replace (exp (- b * (u - 1))) with (exp b * exp (- (b * u))) by (rewrite <- exp_plus; f_equal; ring).
+      destruct m as [|m']; [lia|]. replace (S m' - 1)%nat with m' in * by lia.
+      replace ((b * u) ^ m') with (b ^ m' * u ^ m') by (rewrite Rpow_mult_distr; reflexivity).
+      assert (Hu' : u * u ^ m' = (r / re) ^ 2) by (rewrite <- Hu; reflexivity).
+      assert (Hf : 0 < INR (fact m')) by (apply lt_0_INR, lt_O_fact).
+      assert (He : 0 < exp b) by (apply exp_pos).
+      (* both sides are  flux * exp(-(b u)) * b^(m'+1) * (r/re)^2 / (m'! n r)  *)
+      transitivity (flux * exp (- (b * u)) * (b * b ^ m') * (u * u ^ m') / (INR (fact m') * n * r)).
+      + field. repeat split; lra.
+      + rewrite Hu'. cbn [pow]. pose proof PI_RGT_0 as Hpi. field. repeat split; lra.
+  Qed.
+
+  (* the annulus integral of 2 pi r I(r): for 0 < a <= R the light between the radii a and R is
+     flux x (P(2n, b (R/re)^(1/n)) - P(2n, b (a/re)^(1/n))) *)
+  Theorem sersic1d_light_between a R : 0 < a -> a <= R ->
+    is_RInt (fun r => 2 * PI * r * sersic1d lg r flux re n) a R
+      (flux * enclosed_fraction m (b * rpow (R / re) (1 / n)) - flux * enclosed_fraction m (b * rpow (a / re) (1 / n))).
+  Proof.
+    intros Ha HaR.
+    apply (is_RInt_derive (fun x => flux * enclosed_fraction m (b * rpow (x / re) (1 / n))) (fun r => 2 * PI * r * sersic1d lg r flux re n)).
+    - intros x Hx. rewrite Rmin_left, Rmax_right in Hx by lra. apply sersic1d_light_growth. lra.
+    - intros x Hx. rewrite Rmin_left, Rmax_right in Hx by lra.
+      assert (Hxp : 0 < x) by lra.
+      apply (continuous_ext_loc _ (fun r => 2 * PI * r * (flux / (re * re * 2 * PI * n * exp (b + lg (2 * n))) * rpow b (2 * n) * exp (- b * (exp (1 / n * ln (r / re)) - 1))))).
+      + apply (locally_open (fun r => 0 < r) _ (open_gt 0)); [|exact Hxp].
+        intros r Hr. unfold sersic1d. change (2499 / 1250 * n - 3271 / 10000) with b.
+        rewrite (rpow_pos (r / re)) by (apply Rdiv_lt_0_compat; assumption). reflexivity.
+      + apply (ex_derive_continuous (fun r => 2 * PI * r * (flux / (re * re * 2 * PI * n * exp (b + lg (2 * n))) * rpow b (2 * n) * exp (- b * (exp (1 / n * ln (r / re)) - 1))))).
+        auto_derive. apply Rmult_lt_0_compat; [exact Hxp|apply Rinv_0_lt_compat; exact Hre].
+  Qed.
+
+  (* at R = re the argument of P is b itself: r_eff encloses the fraction P(2n, b_n) of the flux (up to the light inside a) *)
+  Corollary sersic1d_light_to_re a : 0 < a -> a <= re ->
+    is_RInt (fun r => 2 * PI * r * sersic1d lg r flux re n) a re
+      (flux * enclosed_fraction m b - flux * enclosed_fraction m (b * rpow (a / re) (1 / n))).
+  Proof.
+    intros Ha Hare. pose proof (sersic1d_light_between a re Ha Hare) as H.
+    replace (re / re) with 1 in H by (field; lra).
+    rewrite (rpow_pos 1) in H by lra. rewrite ln_1, Rmult_0_r, exp_0, Rmult_1_r in H. exact H.
+  Qed.
+End Radial.
